@@ -60,6 +60,100 @@ pub struct Explored<Op> {
 	pub findings: Vec<PathFinding<Op>>,
 	pub sample_paths: Vec<Vec<Op>>,
 	pub machinery_error: Option<String>,
+	/// same-instance pass: histories re-run on one world kept open, their length bound, and whether the
+	/// pass was cut short by its wall cap
+	pub same_instance_paths: usize,
+	pub same_instance_len: usize,
+	pub same_instance_cap_hit: bool,
+}
+
+/// Set by the replay front end for findings of the same-instance pass: `run_path` then keeps one
+/// world open for the whole path (and compares the final state with the one reached when every
+/// handle is reopened between steps).
+pub static SAME_INSTANCE_REPLAY: std::sync::atomic::AtomicBool = std::sync::atomic::AtomicBool::new(false);
+
+/// length of the histories of the same-instance pass
+fn same_instance_len() -> usize {
+	if let Ok(v) = std::env::var("GWV_SAME_LEN") {
+		if let Ok(n) = v.parse() {
+			return n;
+		}
+	}
+	if tier() == Tier::Thorough {
+		3
+	} else {
+		2
+	}
+}
+
+/// Run `path` from the initial snapshot on ONE world instance that stays open (no handle is dropped or
+/// reopened between operations, unless the model itself does so to model a restart). Returns the problems
+/// of every step (keys prefixed) and the hash of the final projection.
+fn run_same_instance<M: Model>(m: &M, init: &Snapshot, dir: &str, path: &[M::Op]) -> Result<(Vec<(String, String)>, u64), String> {
+	init.restore(dir);
+	let mut w = World::open(dir);
+	let mut problems = vec![];
+	for (i, op) in path.iter().enumerate() {
+		let mut out = StepOut::default();
+		let r = catch(|| {
+			m.step(&mut w, op, &mut out);
+			m.check(&w, &mut out);
+		});
+		if let Err(p) = r {
+			let site = take_last_panic().map(|x| panic_site(&x.1)).unwrap_or_default();
+			drop(w);
+			let _ = std::fs::remove_dir_all(dir);
+			if i + 1 == path.len() {
+				problems.push((format!("same-instance/panic/{}", site), format!("operation {:?} panicked on a wallet instance kept open: {}", op, p)));
+				return Ok((problems, 0));
+			}
+			return Err(format!("panic in the middle of a same-instance path at step {}", i));
+		}
+		for (k, what) in out.problems {
+			problems.push((format!("same-instance/{}", k), format!("{} (on a wallet instance kept open across the whole history)", what)));
+		}
+	}
+	let h = hash_value(&m.project(&w));
+	w.close();
+	let _ = std::fs::remove_dir_all(dir);
+	Ok((problems, h))
+}
+
+/// reopen-mode run of a path from a snapshot: hash of the final projection
+fn run_reopened<M: Model>(m: &M, init: &Snapshot, dir: &str, path: &[M::Op]) -> Result<u64, String> {
+	init.restore(dir);
+	for (i, op) in path.iter().enumerate() {
+		let mut w = World::open(dir);
+		let mut out = StepOut::default();
+		if catch(|| m.step(&mut w, op, &mut out)).is_err() {
+			let _ = take_last_panic();
+			drop(w);
+			return Err(format!("panic at step {} of the reopened run", i));
+		}
+		w.close();
+	}
+	let w = World::open(dir);
+	let h = hash_value(&m.project(&w));
+	w.close();
+	let _ = std::fs::remove_dir_all(dir);
+	Ok(h)
+}
+
+const SAME_DIFFERS: &str = "same-instance/state-differs-from-reopened";
+
+fn same_instance_verdict<M: Model>(m: &M, init: &Snapshot, dir: &str, path: &[M::Op], reopened_hash: Option<u64>) -> Result<Vec<(String, String)>, String> {
+	let (mut problems, h) = run_same_instance(m, init, &format!("{}-s", dir), path)?;
+	let hr = match reopened_hash {
+		Some(h) => h,
+		None => run_reopened(m, init, &format!("{}-r", dir), path)?,
+	};
+	if h != 0 && h != hr {
+		problems.push((
+			SAME_DIFFERS.to_owned(),
+			"the history leaves another wallet state when it runs on one wallet instance kept open than when the wallet is reopened between operations: the instance acts on state it keeps in memory".to_owned(),
+		));
+	}
+	Ok(problems)
 }
 
 struct Node<Op> {
@@ -81,6 +175,11 @@ struct Succ<Op> {
 pub fn run_path<M: Model>(m: &M, dir: &str, path: &[M::Op]) -> Result<Vec<(String, String)>, String> {
 	let _ = std::fs::remove_dir_all(dir);
 	m.init(dir);
+	if SAME_INSTANCE_REPLAY.load(std::sync::atomic::Ordering::SeqCst) {
+		let init = Snapshot::capture(dir);
+		let _ = std::fs::remove_dir_all(dir);
+		return same_instance_verdict(m, &init, dir, path, None);
+	}
 	let mut last = vec![];
 	for (i, op) in path.iter().enumerate() {
 		let mut w = World::open(dir);
@@ -120,6 +219,9 @@ pub fn explore<M: Model>(m: &M, tag: &str, caps: &Caps) -> Explored<M::Op> {
 		findings: vec![],
 		sample_paths: vec![],
 		machinery_error: None,
+		same_instance_paths: 0,
+		same_instance_len: same_instance_len(),
+		same_instance_cap_hit: false,
 	};
 	// initial state
 	let init_dir = format!("{}/{}-init", root, tag);
@@ -137,10 +239,13 @@ pub fn explore<M: Model>(m: &M, tag: &str, caps: &Caps) -> Explored<M::Op> {
 	}
 	let mut visited: HashMap<u64, usize> = HashMap::new();
 	visited.insert(h0, 0);
+	let init_snap = Snapshot::capture(&init_dir);
 	let mut frontier: Vec<Node<M::Op>> = vec![Node {
-		snap: Snapshot::capture(&init_dir),
+		snap: init_snap.clone(),
 		path: vec![],
 	}];
+	// (history, hash of the state it reaches) of every distinct state within the same-instance bound
+	let mut si_cases: Vec<(Vec<M::Op>, u64)> = vec![];
 	let _ = std::fs::remove_dir_all(&init_dir);
 	res.states = 1;
 	res.states_per_depth.push(1);
@@ -237,6 +342,9 @@ pub fn explore<M: Model>(m: &M, tag: &str, caps: &Caps) -> Explored<M::Op> {
 						if res.sample_paths.len() < 5 && path.len() >= 2 {
 							res.sample_paths.push(path.clone());
 						}
+						if path.len() <= res.same_instance_len {
+							si_cases.push((path.clone(), h));
+						}
 						next.push(Node { snap, path });
 					}
 				}
@@ -251,6 +359,50 @@ pub fn explore<M: Model>(m: &M, tag: &str, caps: &Caps) -> Explored<M::Op> {
 			break;
 		}
 	}
+	// same-instance pass: the BFS reopens every wallet handle between two operations, so state that an
+	// instance keeps in memory never survives a step there. Every history up to the bound that reached a
+	// new state is run again on one world kept open; the per-step checks apply, and the final state must
+	// be the one the reopened run reached.
+	let si_findings: Vec<PathFinding<M::Op>> = {
+		let si_start = Instant::now();
+		let si_wall = if tier() == Tier::Thorough { Duration::from_secs(600) } else { Duration::from_secs(25) };
+		let cut = std::sync::atomic::AtomicBool::new(false);
+		let done = std::sync::atomic::AtomicUsize::new(0);
+		let outs = par_map(&si_cases, nworkers, |i, (path, h)| {
+			if si_start.elapsed() > si_wall {
+				cut.store(true, std::sync::atomic::Ordering::SeqCst);
+				return Ok(vec![]);
+			}
+			done.fetch_add(1, std::sync::atomic::Ordering::SeqCst);
+			same_instance_verdict(m, &init_snap, &format!("{}/{}-si{}", root, tag, i), path, Some(*h))
+		});
+		res.same_instance_paths = done.load(std::sync::atomic::Ordering::SeqCst);
+		res.same_instance_cap_hit = cut.load(std::sync::atomic::Ordering::SeqCst);
+		let mut v: Vec<PathFinding<M::Op>> = vec![];
+		for ((path, _), o) in si_cases.iter().zip(outs.into_iter()) {
+			match o {
+				Err(e) => res.machinery_error = Some(format!("same-instance pass: {} (path {:?})", e, path)),
+				Ok(problems) => {
+					for (k, what) in problems {
+						if !v.iter().any(|f| f.key == k) && !res.findings.iter().any(|f| format!("same-instance/{}", f.key) == k) {
+							v.push(PathFinding { key: k, what, path: path.clone() });
+						}
+					}
+				}
+			}
+		}
+		// replay twice, in the same mode
+		for f in v.iter() {
+			for r in 0..2 {
+				let dir = format!("{}/{}-sireplay{}", root, tag, r);
+				match same_instance_verdict(m, &init_snap, &dir, &f.path, None) {
+					Ok(problems) if problems.iter().any(|p| p.0 == f.key) => {}
+					_ => res.machinery_error = Some(format!("same-instance finding {} did not reproduce when its path {:?} was replayed", f.key, f.path)),
+				}
+			}
+		}
+		v
+	};
 	// replay-twice rule for every finding
 	let mut confirmed = vec![];
 	for f in res.findings.drain(..) {
@@ -273,6 +425,7 @@ pub fn explore<M: Model>(m: &M, tag: &str, caps: &Caps) -> Explored<M::Op> {
 		confirmed.push(f);
 	}
 	res.findings = confirmed;
+	res.findings.extend(si_findings);
 	res
 }
 
@@ -289,11 +442,13 @@ pub fn report_explored<Op: serde::Serialize + std::fmt::Debug>(rep: &mut Report,
 	rep.cov(&format!("{}_states_per_depth", tag), json!(e.states_per_depth));
 	rep.cov(&format!("{}_cap_hit", tag), json!(e.cap_hit));
 	rep.cov(&format!("{}_outcomes", tag), json!(e.labels));
+	rep.cov(&format!("{}_same_instance", tag), json!({"histories_rerun_on_one_open_instance": e.same_instance_paths, "history_length_bound": e.same_instance_len, "wall_cap_hit": e.same_instance_cap_hit}));
 	for f in e.findings.iter() {
+		let same = f.key.starts_with("same-instance/");
 		rep.add_finding(Finding {
 			key: format!("{}/{}", prop, f.key),
 			what: format!("{} — after {:?}", f.what, f.path),
-			replay: json!({"kind": tag, "path": f.path}),
+			replay: if same { json!({"kind": tag, "path": f.path, "same_instance": true}) } else { json!({"kind": tag, "path": f.path}) },
 		});
 	}
 }
